@@ -136,13 +136,16 @@ CHECKS = {
              "PacketAck; endpoint retransmission; proxy injection reliable/unreliable; addon take() of a reliable packet with its copy re-sent at once or after "
              "any later events, and take() of an already finalized packet (after its own drop_message, or after its own forward) with the copy re-sent; "
              "the 'all pending' ack choice in receipt, descending and rotated order (appended, on dropped packets, in PacketAck bodies); a standalone "
-             "PacketAck carrying both ack forms, every split of the <=3 pending receipts into body, appendix or both; StartPingCheck with OldestUnacked sent or unsent; tick short/past/exhaust} per direction is executed on a real ProxiedCircuit "
+             "PacketAck carrying both ack forms, every split of the <=3 pending receipts into body, appendix or both; an addon cancelling the completion future of "
+             "a pending injected reliable packet (once per history); an endpoint retransmitting a reliable packet the proxy dropped, with fresh appended acks, "
+             "dropped again; StartPingCheck with OldestUnacked sent or unsent; tick short/past/exhaust} per direction is executed on a real ProxiedCircuit "
              "(real deserializer in, real serializer out) to depth 5 with <=2 deviations and depth 4 with <=3 (quick), plus 5/<=3, 6/<=2 and 7/0 (thorough); the same "
              "histories to depth 3 (4) are replayed through InterceptingLLUDPProxyProtocol.datagram_received with a real Session, a drop addon and the attempt_resends task and must "
              "emit identical datagrams. The oracle reads only the decoded datagrams handed to the transport and the futures of send_reliable, one clause per sentence.",
         note="Endpoints number packets 1,2,3.., ack only reliable packets they received, retransmit only their own unacked reliable packets; delivery to endpoints is "
              "lossless and instant (late/lost acks via ack-selection choices); retry budget and interval read from the code; one poll of slack at the interval "
-             "boundary; take and ping weigh 2 in the deviation bound, only reliable packets are taken, a re-sent copy of a taken packet must show no acknowledgement at all, the rewritten OldestUnacked is recorded in the outcome "
+             "boundary; take and ping weigh 2 in the deviation bound, only reliable packets are taken, a re-sent copy of a taken packet must show no acknowledgement at all, after a cancel nothing is demanded of that packet's own completion or "
+             "retransmission but no exception may escape collect_acks / resend_unacked / datagram_received / the resend task, the rewritten OldestUnacked is recorded in the outcome "
              "signature but not judged; deep-seam tick(exhaust) is polled one poll before/at/after each instant the model expects something due; not covered: ID wrap, "
              "10000-window eviction, dropping a standalone PacketAck; hmc.refwire, a 20-line decoder, "
              "hmc.vloop and the hand-written world clone (re-validated by full replay on every 53rd state) trusted."),
@@ -250,7 +253,7 @@ CHECKS = {
                   "states, determinism rechecks) against a plain reference model",
         text="BFS over the real HippoClientProtocol.datagram_received, Session and Region handlers, Circuit and the resend task: every history up to 7 events (quick 5) "
              "with at most 3 deviations over peer packets id 1..3 x chat/ping x reliable/RESENT/duplicate/out-of-order/task-deferral, both ack forms for every subset of "
-             "outstanding ids plus stale and future ids, client reliable and unreliable sends, and ticks short of, past and across the retry budget, in five "
+             "outstanding ids plus stale and future ids, client reliable and unreliable sends, and ticks short of, past and across the retry budget, the caller cancelling a pending send's future (once per history), in five "
              "subscriber/circuit configurations (a region unregistered and registered again at the same address with traffic on both sides; solo; shared Event; peer traffic on a not-yet-alive circuit across the handshake-completes transition; "
              "self-unsubscribing subscribers -- wait_for, one_shot, handler returning True -- registered ahead of persistent ones on every Event at both levels; all "
              "asserted), plus PacketAck datagrams carrying body and appended ids in every "
